@@ -218,14 +218,15 @@ theorem dedupL_ne_nil {l : List Key} (h : l ≠ []) : dedupL l ≠ [] := by
 /-- When the request at the head names a client that is blocked on its key (always, under the invariant), `wakeOne`
     removes exactly that request. -/
 theorem wakeOne_wakeQ (q : Quirks) (s : State)
-    (h : ∀ w rest, s.wakeQ = w :: rest → wakeTargetOk { s with wakeQ := rest } w = true) :
+    (h : ∀ w rest, s.wakeQ = w :: rest → wakeTargetOk { s with wakeQ := rest } w = true)
+    (hp : ∀ w rest, s.wakeQ = w :: rest → (s.conns w.conn).peerClosed = false) :
     (wakeOne q s).wakeQ = s.wakeQ.tail := by
   unfold wakeOne
   split
   · next h' => rw [h']; rfl
   · next w rest hw =>
     rw [hw]
-    simp only [List.tail_cons, h w rest hw, Bool.true_eq_false, and_false, if_false]
+    simp only [List.tail_cons, h w rest hw, hp w rest hw, Bool.true_eq_false, Bool.false_eq_true, and_false, if_false]
     split
     · rfl
     · split
